@@ -117,6 +117,10 @@ func TestVerifC10SM4(t *testing.T) {
 				sealed := g.Seal(c.nonce, c.pt, c.aad, c.tag)
 				gKey := protect(c.key)
 				a, err := newAEAD(gKey.B, len(c.nonce), c.tag)
+				if err == errComboUnreachable {
+					r.Class("trivial:nonce-x-tag-not-offered-on-this-path")
+					continue
+				}
 				if err != nil {
 					r.Violation("cannot-construct-aead:"+pn, hk.D{"err": err.Error()})
 					continue
@@ -370,6 +374,22 @@ func TestVerifC10SM4(t *testing.T) {
 						} else if !bytes.Equal(out, append(append([]byte{}, hdr...), wantS...)) {
 							d["got"] = clip(out)
 							r.Violation("seal-result-not-dst+output-when-aad-is-the-dst-prefix:"+pn, d)
+						}
+						// the same idiom when the header slice has NO spare capacity (len == cap): the result needs a new array, and
+						// the header - still the additional data of this very call - must be read intact and left intact
+						{
+							hdrOnly := append(make([]byte, 0, len(hdr)), hdr...)
+							ptCopy := append([]byte{}, c.pt...)
+							var out2 []byte
+							p2, msg2, _, _ := hk.Try(func() { out2 = a.Seal(hdrOnly[:len(hdr):len(hdr)], gNonce.B, ptCopy, hdrOnly[:len(hdr):len(hdr)]) })
+							if variant == 0 {
+								if p2 || !bytes.Equal(out2, append(append([]byte{}, hdr...), wantSealed...)) {
+									d["panic"], d["idiom"] = msg2, "Seal(hdr (no spare capacity), nonce, pt, hdr)"
+									r.Violation("seal-result-wrong-when-dst-prefix-without-room-is-the-aad:"+pn, d)
+								} else if !bytes.Equal(hdrOnly, hdr) {
+									r.Violation("seal-modifies-dst-prefix-that-is-the-aad:"+pn, d)
+								}
+							}
 						}
 						// and back: header and sealed payload adjacent in one buffer
 						rec2 := append(append([]byte{}, hdr...), wantS...)
